@@ -69,7 +69,11 @@ impl Float {
         // by Henrik Vestermark.
 
         // Handle all of the special cases:
-        if !self.is_normal() || self.is_negative() {
+        if self.is_zero() {
+            return Self::inf(sem, true); // log(0) = -inf.
+        } else if self.is_inf() && !self.is_negative() {
+            return self.clone(); // log(+inf) = +inf.
+        } else if !self.is_normal() || self.is_negative() {
             return Self::nan(sem, self.get_sign());
         }
 
@@ -148,6 +152,13 @@ impl Float {
         // Handle all of the special cases:
         if self.is_zero() {
             return Self::one(sem, false);
+        } else if self.is_inf() {
+            // e^+inf = +inf, e^-inf = +0.
+            return if self.is_negative() {
+                Self::zero(sem, false)
+            } else {
+                Self::inf(sem, false)
+            };
         } else if !self.is_normal() {
             return Self::nan(sem, self.get_sign());
         }
@@ -187,7 +198,12 @@ impl Float {
         let one = Self::one(self.get_semantics(), false);
 
         if self.is_inf() {
-            return Self::one(self.get_semantics(), self.get_sign());
+            // sigmoid(+inf) = 1, sigmoid(-inf) = +0.
+            return if self.is_negative() {
+                Self::zero(self.get_semantics(), false)
+            } else {
+                one
+            };
         } else if self.is_zero() {
             use RoundingMode::Zero as rm;
             return one.scale(-1, rm);
@@ -196,6 +212,9 @@ impl Float {
         }
 
         let ex = self.exp();
+        if ex.is_inf() {
+            return one; // e^x overflowed: the quotient rounds to one.
+        }
         &ex / (&ex + &one)
     }
 }
